@@ -232,6 +232,12 @@ impl MmapStorage {
         self.file
             .set_len(new_size)
             .wrap_err_with(|| format!("failed to extend file to {} bytes", new_size))?;
+        #[cfg(all(kahflane_turdb_verif, unix))]
+        {
+            use std::os::unix::fs::MetadataExt;
+            let ino = self.file.metadata().map(|m| m.ino()).unwrap_or(0);
+            crate::verif_hooks::io_event(9, std::path::Path::new(""), ino, new_size);
+        }
 
         // SAFETY: MmapMut::map_mut is unsafe because the old mmap becomes invalid.
         // This is safe because:
@@ -248,6 +254,15 @@ impl MmapStorage {
     }
 
     pub fn sync(&self) -> Result<()> {
+        #[cfg(all(kahflane_turdb_verif, unix))]
+        {
+            use std::os::unix::fs::MetadataExt;
+            let flushed = self.mmap.flush().wrap_err("failed to sync mmap to disk");
+            let ino = self.file.metadata().map(|m| m.ino()).unwrap_or(0);
+            crate::verif_hooks::io_event(6, std::path::Path::new(""), ino, 0);
+            return flushed;
+        }
+        #[allow(unreachable_code)]
         self.mmap.flush().wrap_err("failed to sync mmap to disk")
     }
 
